@@ -40,6 +40,7 @@ func c11Build(seed int64) func(id int, raw json.RawMessage) *Job {
 		if json.Unmarshal(raw, &tc) != nil {
 			return nil
 		}
+		scMarkAttr(tc.Items)
 		r := scRenderMode(tc.Items, scModeOf(raw, scSeed))
 		if len(r.Occ) == 0 {
 			return nil
